@@ -70,7 +70,7 @@ def sx(x):
         return '"' + sx_escape(x) + '"'
     if x is None:
         return 'none'
-    return '(' + ' '.join(sx(y) for y in x) + ')'
+    return '(' + ' '.join([sx(y) for y in x]) + ')'
 
 
 def sx_parse(text):
@@ -130,6 +130,18 @@ def sx_parse(text):
 
 
 # ---------------------------------------------------------------- model driver
+class deep_recursion:
+    """the harness's own (plain-function) recursion over deep terms; never active while the
+    engine under test runs"""
+
+    def __enter__(self):
+        self.old = sys.getrecursionlimit()
+        sys.setrecursionlimit(max(self.old, 200000))
+
+    def __exit__(self, *a):
+        sys.setrecursionlimit(self.old)
+
+
 class ModelTimeout(Exception):
     """the model driver did not answer within its budget (the case is skipped, not judged)"""
 
@@ -174,7 +186,8 @@ class Driver:
         return out.decode('utf-8')
 
     def ask(self, expr):
-        return sx_parse(self.ask_raw(sx(expr)))
+        with deep_recursion():
+            return sx_parse(self.ask_raw(sx(expr)))
 
     def close(self):
         try:
